@@ -1,4 +1,221 @@
+//! Family 2: timestamps (str + serde + unix), Url, base encodings, OneOrMany / OneOrSet / OrderedSet / Context JSON.
+use crate::gen::{self, MISC_TOKENS, NUM_TOKENS, TS_TOKENS, URL_TOKENS};
 use crate::world::World;
-use crate::Cx;
+use crate::{hash_of, Cx, In};
+use identity_core::common::{Context, Duration, Object, OneOrMany, OneOrSet, OrderedSet, Timestamp, Url};
+use identity_core::convert::{Base, BaseEncoding, FromJson, ToJson};
 use vh::Rng;
-pub fn run(_cx: &mut Cx, _w: &World, _rng: &mut Rng, _budget: u64) {}
+
+const BASES: &[Base] = &[
+  Base::Base2, Base::Base8, Base::Base10, Base::Base16Lower, Base::Base16Upper, Base::Base32Lower, Base::Base32Upper, Base::Base32PadLower,
+  Base::Base32PadUpper, Base::Base32HexLower, Base::Base32HexUpper, Base::Base32HexPadLower, Base::Base32HexPadUpper, Base::Base32Z,
+  Base::Base36Lower, Base::Base36Upper, Base::Base58Flickr, Base::Base58Btc, Base::Base64, Base::Base64Pad, Base::Base64Url, Base::Base64UrlPad,
+];
+
+pub fn sweep_ts(cx: &mut Cx, origin: &str, t: Timestamp) {
+  let i = In::C(origin, "Timestamp");
+  cx.acc("Timestamp.to_rfc3339", i, || t.to_rfc3339().len());
+  cx.acc("Timestamp.to_unix", i, || t.to_unix());
+  cx.acc("Timestamp.fmt", i, || (t.to_string().len(), format!("{:?}", t).len(), String::from(t).len()));
+  cx.acc("Timestamp.to_json", i, || t.to_json().map(|j| Timestamp::from_json(&j).is_ok()).is_ok());
+  cx.acc("Timestamp.eq_hash_ord", i, || (t == t, hash_of(&t), t.cmp(&t)));
+  for d in [Duration::seconds(u32::MAX), Duration::minutes(u32::MAX), Duration::hours(u32::MAX), Duration::days(u32::MAX), Duration::weeks(u32::MAX), Duration::seconds(1), Duration::days(366)] {
+    cx.acc("Timestamp.checked_add", i, || t.checked_add(d).map(|x| x.to_rfc3339().len()));
+    cx.acc("Timestamp.checked_sub", i, || t.checked_sub(d).map(|x| x.to_rfc3339().len()));
+  }
+}
+
+pub fn sweep_url(cx: &mut Cx, origin: &str, u: &Url) {
+  let i = In::C(origin, "Url");
+  cx.acc("Url.fmt", i, || (u.to_string().len(), format!("{:?}", u).len(), u.as_str().len(), u.clone().into_string().len()));
+  cx.acc("Url.to_json", i, || u.to_json().map(|j| Url::from_json(&j).is_ok()).is_ok());
+  cx.acc("Url.parts", i, || (u.scheme().len(), u.path().len(), u.query().map(str::len), u.fragment().map(str::len), u.host_str().map(str::len), u.query_pairs().count()));
+  for a in ["#f", "/p", "?q", "..", "//x", "", "é", "http://[::1"] {
+    cx.acc("Url.join", In::C(origin, a), || u.join(a).map(|x| x.as_str().len()).ok());
+  }
+  cx.acc("Url.eq_hash", i, || (*u == u.clone(), hash_of(u), *u == "x"));
+}
+
+fn feed_str(cx: &mut Cx, s: &str) {
+  let i = In::S(s);
+  if let Some(t) = cx.ent("Timestamp::parse", i, || Timestamp::parse(s)) {
+    sweep_ts(cx, s, t);
+  }
+  let j = serde_json::to_string(s).unwrap_or_default();
+  if let Some(t) = cx.ent("Timestamp::from_json", In::S(&j), || Timestamp::from_json(&j)) {
+    sweep_ts(cx, s, t);
+  }
+  if let Some(u) = cx.ent("Url::parse", i, || Url::parse(s)) {
+    sweep_url(cx, s, &u);
+  }
+  if let Some(u) = cx.ent("Url::from_json", In::S(&j), || Url::from_json(&j)) {
+    sweep_url(cx, s, &u);
+  }
+  if let Some(c) = cx.ent("Context::from_json", In::S(&j), || Context::from_json(&j)) {
+    cx.acc("Context.fmt", In::C(s, "Context"), || (format!("{:?}", c).len(), c.to_json().is_ok()));
+  }
+}
+
+fn feed_base(cx: &mut Cx, s: &str, all: bool) {
+  let i = In::S(s);
+  cx.ent("BaseEncoding::decode_multibase", i, || BaseEncoding::decode_multibase(s));
+  cx.ent("BaseEncoding::decode_base58", i, || BaseEncoding::decode_base58(s));
+  if all {
+    for b in BASES {
+      cx.ent("BaseEncoding::decode", i, || BaseEncoding::decode(s, *b));
+    }
+  } else {
+    cx.ent("BaseEncoding::decode", i, || BaseEncoding::decode(s, Base::Base64Url));
+    cx.ent("BaseEncoding::decode", i, || BaseEncoding::decode(s, Base::Base64));
+  }
+}
+
+fn feed_json(cx: &mut Cx, j: &str) {
+  let i = In::S(j);
+  if let Some(v) = cx.ent("OneOrMany<String>::from_json", i, || OneOrMany::<String>::from_json(j)) {
+    cx.acc("OneOrMany.sweep", i, || {
+      let mut c = v.clone();
+      c.push("x".to_string());
+      (v.len(), v.is_empty(), v.get(0).is_some(), v.get(usize::MAX).is_some(), v.contains(&"a".to_string()), v.iter().count(), v.as_slice().len(), c.len(), v.to_json().is_ok(), v.clone().into_vec().len(), format!("{:?}", v).len())
+    });
+  }
+  if let Some(v) = cx.ent("OneOrSet<String>::from_json", i, || OneOrSet::<String>::from_json(j)) {
+    cx.acc("OneOrSet.sweep", i, || {
+      let mut c = v.clone();
+      let a = c.append("x".to_string());
+      let b = c.append("x".to_string());
+      let m = v.clone().map(|s| s.len());
+      let t: Result<OneOrSet<usize>, ()> = v.clone().try_map(|s| Ok(s.len() % 2));
+      (v.len(), v.get(0).is_some(), v.get(usize::MAX).is_some(), v.contains("a"), v.iter().count(), v.as_slice().len(), a, b, m.len(), t.is_ok(), v.to_json().is_ok(), v.clone().into_vec().len())
+    });
+  }
+  if let Some(v) = cx.ent("OrderedSet<String>::from_json", i, || OrderedSet::<String>::from_json(j)) {
+    cx.acc("OrderedSet.sweep", i, || {
+      let mut c = v.clone();
+      let a = c.append("x".to_string());
+      let b = c.prepend("y".to_string());
+      let r = c.replace(&"x".to_string(), "z".to_string());
+      let u = c.update("z".to_string());
+      let rm = c.remove(&"y".to_string()).is_some();
+      (v.len(), v.is_empty(), v.head().is_some(), v.tail().is_some(), v.contains("a"), a, b, r, u, rm, v.to_json().is_ok(), v.clone().into_vec().len(), format!("{:?}", v).len())
+    });
+  }
+  if let Some(v) = cx.ent("OneOrMany<Context>::from_json", i, || OneOrMany::<Context>::from_json(j)) {
+    cx.acc("OneOrMany<Context>.to_json", i, || v.to_json().is_ok());
+  }
+  if let Some(v) = cx.ent("Object::from_json", i, || Object::from_json(j)) {
+    cx.acc("Object.to_json", i, || (v.to_json().is_ok(), v.to_json_pretty().is_ok(), v.to_json_vec().is_ok(), v.to_json_value().is_ok()));
+  }
+  if let Some(t) = cx.ent("Timestamp::from_json", i, || Timestamp::from_json(j)) {
+    sweep_ts(cx, j, t);
+  }
+  cx.ent("Duration::from_json", i, || Duration::from_json(j).map(|d| d.to_json().is_ok()));
+}
+
+pub fn run(cx: &mut Cx, w: &World, rng: &mut Rng, budget: u64) {
+  // ---- directed
+  cx.set("core", "directed");
+  let mut k = 0u64;
+  for s in TS_TOKENS.iter().chain(URL_TOKENS).chain(MISC_TOKENS).chain(NUM_TOKENS).chain(gen::DID_TOKENS) {
+    k += 1;
+    if cx.args.mine(k) {
+      feed_str(cx, s);
+      feed_base(cx, s, true);
+    }
+  }
+  for n in NUM_TOKENS {
+    k += 1;
+    if !cx.args.mine(k) {
+      continue;
+    }
+    if let Ok(x) = n.parse::<i64>() {
+      if let Some(t) = cx.ent("Timestamp::from_unix", In::S(n), || Timestamp::from_unix(x)) {
+        sweep_ts(cx, n, t);
+      }
+    }
+    feed_json(cx, n);
+  }
+  for x in [i64::MIN, i64::MIN + 1, -62_167_219_201, -62_167_219_200, 253_402_300_799, 253_402_300_800, i64::MAX - 1, i64::MAX, 0, -1] {
+    k += 1;
+    if cx.args.mine(k) {
+      let s = x.to_string();
+      if let Some(t) = cx.ent("Timestamp::from_unix", In::S(&s), || Timestamp::from_unix(x)) {
+        sweep_ts(cx, &s, t);
+      }
+    }
+  }
+  let json_directed: Vec<String> = vec![
+    "[]".into(), "{}".into(), "null".into(), "\"a\"".into(), "[\"a\",\"a\"]".into(), "[\"a\",\"b\",\"a\"]".into(), "[null]".into(), "[[\"a\"]]".into(), "[1]".into(),
+    "{\"a\":1,\"a\":2}".into(), "[\"\"]".into(), "\"\\ud800\"".into(), "\"\\u0000\"".into(), "[\"a\"".into(), "\u{feff}[]".into(),
+    gen::deep_json(100, 0), gen::deep_json(100, 1), gen::deep_json(100, 2), gen::deep_json(127, 0), gen::deep_json(100, 3),
+    format!("[{}]", vec!["\"a\""; 5000].join(",")),
+    format!("[{}]", (0..3000).map(|i| format!("\"{}\"", i)).collect::<Vec<_>>().join(",")),
+    format!("\"{}\"", "a".repeat(60_000)),
+  ];
+  for j in &json_directed {
+    k += 1;
+    if cx.args.mine(k) {
+      feed_json(cx, j);
+    }
+  }
+
+  // ---- random: timestamp templates, mutated strings, mutated JSON
+  cx.gen("grammar");
+  for _ in 0..budget / 3 {
+    let y = *rng.pick(&[0i64, 1, 4, 1969, 1970, 2000, 2024, 9996, 9999, 10000, -1]);
+    let s = format!(
+      "{:04}-{:02}-{:02}{}{:02}:{:02}:{:02}{}{}",
+      y,
+      rng.below(14),
+      rng.below(33),
+      rng.pick(&["T", "T", "T", "t", " ", ""]),
+      rng.below(25),
+      rng.below(61),
+      rng.below(62),
+      rng.pick(&["", "", ".0", ".999999999", ".1234567890123", "."]),
+      match rng.below(5) {
+        0 => "Z".to_string(),
+        1 => "z".to_string(),
+        2 => String::new(),
+        _ => format!("{}{:02}:{:02}", rng.pick(&["+", "-"]), rng.below(25), rng.below(61)),
+      }
+    );
+    feed_str(cx, &s);
+  }
+  cx.gen("mutation");
+  for _ in 0..budget / 3 {
+    let seed = match rng.below(3) {
+      0 => *rng.pick(TS_TOKENS),
+      1 => *rng.pick(URL_TOKENS),
+      _ => *rng.pick(MISC_TOKENS),
+    };
+    let other = gen::any_token(rng);
+    let s = gen::mutate_str(rng, seed, other);
+    feed_str(cx, &s);
+    feed_base(cx, &s, rng.chance(1, 8));
+    if rng.chance(1, 4) {
+      let n = rng.usize(96);
+      let b = rng.bytes(n);
+      let enc = match rng.below(4) {
+        0 => vh::b64::url_encode(&b),
+        1 => vh::b64::std_encode_pad(&b),
+        2 => format!("z{}", vh::b64::url_encode(&b)),
+        _ => format!("{}{}", rng.pick(&["m", "u", "f", "F", "b", "B", "k", "K", "0", "7", "9", "Z", "M", "U"]), vh::b64::std_encode_nopad(&b)),
+      };
+      feed_base(cx, &enc, true);
+    }
+  }
+  for _ in 0..budget / 3 {
+    let (_, text, val) = w.seeds.pick(rng, &[]);
+    let base = match rng.below(4) {
+      0 => "[\"a\",\"b\",\"c\"]".to_string(),
+      1 => "\"2020-01-01T00:00:00Z\"".to_string(),
+      2 => "[\"https://www.w3.org/2018/credentials/v1\",{\"a\":\"b\"}]".to_string(),
+      _ => text.clone(),
+    };
+    let bv = serde_json::from_str::<serde_json::Value>(&base).ok();
+    let other = gen::any_token(rng);
+    let j = gen::mutate_json_text(rng, &base, bv.as_ref().or(Some(val)), other);
+    feed_json(cx, &j);
+  }
+}
